@@ -217,6 +217,10 @@ def argspec(n, item, localdefs, where):
         nm = n["referencedDecl"]["name"]
         if nm in localdefs:
             k, w = localdefs[nm]
+            if w.startswith("cast:"):        # T v = (T)item->args[k];
+                if w[5:] != ctype_of(qtype(n), where):
+                    raise SrcFactsError("%s: local %s is initialised through a cast to a different type" % (where, nm))
+                return "ASlot %d (OutCast %s)" % (k, w[5:])
             return "ASlot %d (OutMemcpy %s %s)" % (k, w, ctype_of(qtype(n), where))
         return "AOther"
     if member_of(n, item, "thread"):
@@ -265,6 +269,23 @@ def switch_facts(fn):
                 raise SrcFactsError("switch(item->op): nested %s is outside the recognised subset" % k)
         calls = [n for n in walk(s) if n.get("kind") == "CallExpr"]
         cond = [n for n in walk(s) if n.get("kind") in ("IfStmt", "WhileStmt", "ForStmt", "ConditionalOperator")]
+        # locals defined straight from a slot: T v = (T)item->args[k];  /  v = (T)item->args[k];
+        for n in walk(s):
+            tgt, init = None, None
+            if n.get("kind") == "VarDecl" and inner(n):
+                tgt, init, tty = n.get("name"), inner(n)[-1], qtype(n)
+            elif n.get("kind") == "BinaryOperator" and n.get("opcode") == "=" and strip(inner(n)[0]).get("kind") == "DeclRefExpr" \
+                    and strip(inner(n)[0])["referencedDecl"].get("kind") == "VarDecl":
+                tgt, init, tty = strip(inner(n)[0])["referencedDecl"]["name"], inner(n)[1], qtype(strip(inner(n)[0]))
+            if tgt is None:
+                continue
+            i0 = strip(init)
+            k = slot_of(inner(i0)[0], "item") if i0.get("kind") == "CStyleCastExpr" else slot_of(i0, "item")
+            if k is not None:
+                cty = ctype_of(qtype(i0) if i0.get("kind") == "CStyleCastExpr" else tty, "io.c local " + tgt)
+                if cty != ctype_of(tty, "io.c local " + tgt):
+                    raise SrcFactsError("switch(item->op): local %s is initialised through a cast to a different type" % tgt)
+                localdefs[tgt] = (k, "cast:" + cty)
         for c in calls:
             nm = callee_name(c)
             if nm in ("memcpy", "__builtin_memcpy", "__builtin___memcpy_chk"):
